@@ -570,6 +570,19 @@ def _est_names(e):
     return out
 
 
+def _static_fragment(case):
+    """the static part shared by the two proved fragments: factual variables of the graph, unstarred values, no name on both sides"""
+    outs, conds = case["outcomes"], case["conditions"]
+    if not outs or not conds or case.get("malformed"):
+        return False
+    nodes = set(G.all_nodes(case["g"]))
+    for var, val in outs + conds:
+        if var[4] or str(var[2]) != "n" or str(var[3]) != "0" or val != "m" or int(var[1]) not in nodes:
+            return False
+    on, cn = [int(v_[1]) for v_, _ in outs], [int(v_[1]) for v_, _ in conds]
+    return len(set(on)) == len(on) and len(set(cn)) == len(cn) and not (set(on) & set(cn))
+
+
 def in_fragment_c(case):
     """The fragment of Props/C08.lean `InFragmentC` (theorem idcstar_sound_fragment), decided on the REAL run:
     static  -- outcomes / conditions are dicts of factual variables of the graph, unstarred values, no name on both sides,
@@ -598,6 +611,38 @@ def in_fragment_c(case):
         return False       # ID* refused or failed on the joint event: IDC* returns no expression
     est = K.canon_expr(E.to_str_tree(E.enc_expr(calls[-1][2])))
     return _est_names(est) == set(on) | set(cn)
+
+
+def in_fragment_x(case):
+    """The EXCHANGE fragment of Props/C08.lean `InFragmentX` (theorem idcstar_sound_fragment_exchange), decided on the REAL run:
+    static  -- as in_fragment_c, with at least one outcome and exactly ONE condition X = x;
+    dynamic -- line 4 recursed exactly once (rule 2 applied to X), the recursive call has NO condition and its outcomes are
+               either exactly the Y_x of the original outcomes Y (every outcome descends from X) or exactly the original
+               outcomes (none descends from X), and its re-association returned them unchanged (the counterfactual graph of
+               the exchanged outcomes kept every key).
+    Inside it IDC* is PROVED to return P(outcomes, X = x) / P(X = x) in every compatible functional SCM with P(X = x) > 0
+    (rule 2 of the do-calculus on the noise space, no positivity assumption): a failure there is a VIOLATION."""
+    outs, conds = case["outcomes"], case["conditions"]
+    if not outs or len(conds) != 1 or case.get("malformed"):
+        return False
+    nodes = set(G.all_nodes(case["g"]))
+    for var, val in outs + conds:
+        if var[4] or str(var[2]) != "n" or str(var[3]) != "0" or val != "m" or int(var[1]) not in nodes:
+            return False
+    on, x = [int(v_[1]) for v_, _ in outs], int(conds[0][0][1])
+    if len(set(on)) != len(on) or x in on:
+        return False
+    rec = {}
+    res, _ = _run_real(case, K.id_strategies(joint(case))[0], record=rec)
+    levels, reassoc = rec.get("levels", []), rec.get("reassoc", [])
+    if len(levels) != 2 or len(reassoc) != 2 or res[0] == "err":
+        return False
+    want = K.sort_event([[K.mkvar(int(v_[1]), [(x, "m")]), val] for v_, val in outs])
+    o2, c2 = K.sort_event(K.enc_event(levels[1][0])), K.enc_event(levels[1][1])
+    r2o, r2c = K.sort_event(K.enc_event(reassoc[1][0])), K.enc_event(reassoc[1][1])
+    canon = lambda ev: sorted(json.dumps([K.canon_var(v_), str(val)]) for v_, val in ev)    # noqa: E731
+    same = K.sort_event([[K.mkvar(int(v_[1])), val] for v_, val in outs])
+    return not c2 and not r2c and canon(r2o) == canon(o2) and canon(o2) in (canon(want), canon(same))
 
 
 COARSE = ("F11", "normalisation:subscript", "inherited", "reassociation", "exchange:polarity", "exchange:conditions", "exchange:separation",
@@ -639,6 +684,7 @@ def run_python(case):
     r = _evaluate(case, all_verdicts=True)
     by_order = r["by_order"]
     frag = bool(r["in_domain"]) and in_fragment_c(case)
+    fragx = bool(r["in_domain"]) and not frag and in_fragment_x(case)
     distinct = []
     for x in by_order:
         if x not in distinct:
@@ -662,10 +708,17 @@ def run_python(case):
             # Props/C08.lean idcstar_own_recursion_terminates: no name is both an outcome and a condition
             "termination_theorem_applies": not ({int(v_[1]) for v_, _ in case["outcomes"]} &
                                                 {int(v_[1]) for v_, _ in case["conditions"]}),
-            "in_fragment_c": frag, "in_fragment_c_answered": bool(frag and shape in ("P", "sum", "prod", "frac"))}
+            "in_fragment_c": frag, "in_fragment_c_answered": bool(frag and shape in ("P", "sum", "prod", "frac")),
+            # Props/C08.lean idcstar_sound_fragment_exchange: one factual condition, exchanged by rule 2
+            "in_fragment_x": fragx, "in_fragment_x_answered": bool(fragx and shape in ("P", "sum", "prod", "frac")),
+            "proved_fragment": "C" if frag else "X" if fragx else "static-only" if _static_fragment(case) else "none"}
     nontrivial = r["in_domain"] and K.n_worlds(jt) >= 1 and bool(case["g"]["di"] or case["g"]["bi"]) and \
         shape in ("P", "sum", "prod", "frac", "unidentifiable", "zero")
-    out = {"out": ["orders", by_order], "fail": r["fail"], "nontrivial": bool(nontrivial), "tags": tags}
+    answered = first[0] == "ok"
+    # the model's own verdict on the two proved fragments (driver op idc_star_checked) must agree with the classification of
+    # the REAL run whenever IDC* answered: part of the correspondence
+    out = {"out": ["orders", by_order, ["frag", bool(frag and answered), bool(fragx and answered)]], "fail": r["fail"],
+           "nontrivial": bool(nontrivial), "tags": tags}
     if r["fail"] and r["order_verdict"] == "mixed":
         out["fail"] += (" [the answer depends on the iteration order of a Python set (PYTHONHASHSEED): under another order "
                         "idc_star returns a CORRECT answer; verdict per distinct answer: %s]" % r["verdicts"])
@@ -673,6 +726,10 @@ def run_python(case):
         # a theorem says this cannot happen: never a known finding
         out["fail"] += " [INSIDE the fragment of idcstar_sound_fragment (Props/C08.lean): the answer is proved correct there]"
         out["finding_key"] = json.dumps(["IN-FRAGMENT", r["kind"]])
+    elif r["fail"] and fragx:
+        out["fail"] += (" [INSIDE the exchange fragment of idcstar_sound_fragment_exchange (Props/C08.lean): the answer is proved "
+                        "correct there]")
+        out["finding_key"] = json.dumps(["IN-FRAGMENT-X", r["kind"]])
     elif r["fail"] and r["kind"] in COARSE:
         ck = _coarse_key(case, r)
         if r["order_verdict"] == "mixed":
@@ -694,7 +751,7 @@ def run_python(case):
 def request(case):
     g = case["g"]
     gs = C.graph_sexp(g["nodes"], g["di"], g["bi"])
-    return C.enc(["cf", "idc_star_all", gs, case["outcomes"], case["conditions"], [list(s) for s in K.id_strategies(joint(case))]])
+    return C.enc(["cf", "idc_star_checked", gs, case["outcomes"], case["conditions"], [list(s) for s in K.id_strategies(joint(case))]])
 
 
 def _canon_one(rep):
@@ -708,9 +765,11 @@ def _canon_one(rep):
 
 
 def canon_model(case, rep):
-    if rep[0] != "ok":
+    if rep[0] != "ok" or len(rep) < 3 or rep[1][0] != "frag":
         return ["model-error", rep]
-    return ["orders", [_canon_one(r) for r in rep[1:]]]
+    res = [_canon_one(r) for r in rep[2:]]
+    answered = res[0][0] == "ok"
+    return ["orders", res, ["frag", bool(str(rep[1][1]) == "1" and answered), bool(str(rep[1][2]) == "1" and answered)]]
 
 
 def shrink(case):
@@ -728,6 +787,8 @@ def finding_key(case, res):
     r = _evaluate(case)
     if r["fail"] and r["in_domain"] and in_fragment_c(case):
         return json.dumps(["IN-FRAGMENT", r["kind"]])
+    if r["fail"] and r["in_domain"] and in_fragment_x(case):
+        return json.dumps(["IN-FRAGMENT-X", r["kind"]])
     return _coarse_key(case, r) or SHRINK.key_of(case, r["kind"])
 
 
